@@ -42,3 +42,4 @@ void x__ZNSt7__cxx1112basic_stringIcSt11char_traitsIcESaIcEE7reserveEm(vstr *s, 
   np[old] = 0; VS_P(s) = np; VS_CAP(s) = VF_MAXCOPY;
 }
 uint8_t *x__ZNSt7__cxx1112basic_stringIcSt11char_traitsIcESaIcEEixEm(vstr *s, uint64_t i) { return VS_P(s) + i; }
+uint8_t *x__ZNKSt7__cxx1112basic_stringIcSt11char_traitsIcESaIcEEixEm(vstr *s, uint64_t i) { return VS_P(s) + i; }
